@@ -455,6 +455,11 @@ class Vector(Qube):
             recursive   True to include the derivatives.
         """
 
+        if self._numer_ != (3,):
+            raise ValueError('%s.ucross() requires item shape (3,); actual '
+                             'shape is %s'
+                             % (type(self).__name__, str(self._numer_)))
+
         return self.cross(arg, recursive=recursive).unit(recursive=recursive)
 
     #===========================================================================
